@@ -442,6 +442,9 @@ type recHub struct {
 	// loginAuth, if set, produces the Auth a login returns
 	loginAuth func(req *logical.Request) *logical.Auth
 	physSeq   func() int64
+	// hook, if set, runs inside the backend: stage "exist" at the start of an existence check, stage "handle" at the
+	// start of a client operation's handler (after the invocation was recorded)
+	hook func(stage string, ctx context.Context, req *logical.Request)
 }
 
 func newRecHub() *recHub {
@@ -513,7 +516,11 @@ func (b *recBE) Type() logical.BackendType                                      
 func (b *recBE) HandleExistenceCheck(ctx context.Context, req *logical.Request) (bool, bool, error) {
 	b.hub.mu.Lock()
 	b.hub.calls = append(b.hub.calls, recCall{Seq: nextSeq(), Mount: req.MountPoint, Op: req.Operation, Path: req.Path, Token: req.ClientToken, Exist: true, ReqID: req.ID})
+	hook := b.hub.hook
 	b.hub.mu.Unlock()
+	if hook != nil {
+		hook("exist", ctx, req)
+	}
 	if strings.HasPrefix(req.Path, "kv/") {
 		e, err := req.Storage.Get(ctx, strings.TrimPrefix(req.Path, "kv/"))
 		if err != nil {
@@ -540,7 +547,11 @@ func (b *recBE) HandleRequest(ctx context.Context, req *logical.Request) (*logic
 	h.mu.Lock()
 	h.calls = append(h.calls, call)
 	idx = len(h.calls) - 1
+	hook := h.hook
 	h.mu.Unlock()
+	if hook != nil && !call.Revoke && !call.Renew && req.Operation != logical.RollbackOperation {
+		hook("handle", ctx, req)
+	}
 	defer func() {
 		if h.physSeq != nil {
 			x := h.physSeq()
